@@ -73,9 +73,7 @@ def IN_APP_EXCLUDE():
     if user_defined is None:
         user_defined = []
     else:
-        if ',' in user_defined:
-            user_defined = user_defined.split(',')
-        user_defined = [user_defined]
+        user_defined = user_defined.split(',')
 
     prefix = sys.exec_prefix
     user_defined.append(prefix)
